@@ -6,6 +6,6 @@ package tunnel
 
 // C02: the tunnel end-blocker never returns an error (and keeps the module's store invariant)
 //@ func EndBlocker
-//@ modifies Store_tunnel, Bank, Other
+//@ modifies Store_tunnel, Bank, Other, RouteSent
 //@ requires forall t Int :: keeper.wfTunnel(Store_tunnel, t) && keeper.wfLP(Store_tunnel, t)
 //@ ensures err == nil
